@@ -147,7 +147,8 @@ HOSTILE = ["", " ", "'", '"', "'a", '"a', "(", ")", "((", "\\", "a\\", "-", "--"
            "...1", "5...1", "1...2...3", "x" * 100, "%", "%Q", "DD", "[", "[a", "*", "a|", "(?", "99999999999999999999", "'''",
            "#", "#a", "$", "`", "1 2", "a b", "=", "==", "<", "x <", "x < ", "count", "1;2", "a,b", "a,,b", ",a", "a,", "tab",
            "TAB", "cr,lf", " x", "x ", "None", "True", "-", "- 1", "1-", "1...-", "…5", "1…", "''", '""', "'\\'",
-           "0...", "...0", "0", "-0", "1e400", "x.y", ".", "..", "a.b.c", "Text.", ".Text", "1,5", "\r", "x\ry"]
+           "0...", "...0", "0", "-0", "1e400", "x.y", ".", "..", "a.b.c", "Text.", ".Text", "1,5", "\r", "x\ry",
+           '"\\xZ"', '"\\N{foo}"', '"\\u12"', "'\\x'", '"\\777"', '"\\""', "'\\''", '"\\\\"']
 
 
 def native_enumeration(tier):
